@@ -241,11 +241,15 @@ def dtc(code, name):
                                  display_trouble_code=None, level=None, is_temporary_raw=None, sdgs=[])
 
 
-def dtc_dop(name, dtcs, bits=16):
+def dtc_dop(name, dtcs, bits=16, linked=()):
+    """linked: list of (DTC-DOP, [short names of the DTCs that are not inherited from it])"""
+    from odxtools.dtcdop import LinkedDtcDop
+    links = [LinkedDtcDop(not_inherited_dtc_snrefs=list(ni), dtc_dop_ref=OdxLinkRef.from_id(base.odx_id))
+             for (base, ni) in linked]
     d = DtcDop(odx_id=OdxLinkId(f"id.{name}", FRAGS), oid=None, short_name=name, long_name=None, description=None,
                admin_data=None, sdgs=[], diag_coded_type=std_type(bits),
                physical_type=PhysicalType(base_data_type=DataType.A_UINT32, display_radix=None, precision=None),
-               compu_method=identical(DataType.A_UINT32), dtcs_raw=list(dtcs), linked_dtc_dops_raw=[],
+               compu_method=identical(DataType.A_UINT32), dtcs_raw=list(dtcs), linked_dtc_dops_raw=links,
                is_visible_raw=None)
     return note(d)
 
